@@ -433,6 +433,10 @@ fn do_panic(w: &Arc<World>, op: OpId) -> ! {
     w.with(|i| {
         i.ops[op].panicked = true;
         i.stats.panics_injected += 1;
+        let obj = i.ops[op].obj;
+        i.objs[obj].panic_injected = Some(op);
+        i.clock += 1;
+        i.panic_clock = i.clock;
     });
     w.hist(|| format!("PANIC injected in #{}", op));
     panic!("dv-injected panic in operation #{}", op);
@@ -671,6 +675,14 @@ fn check_future_result(w: &Arc<World>, id: OpId, r: Result<Res, Canceled>) {
 }
 
 /// Drops a handle; if it is the last owner the drop must destroy the value exactly once before returning
+/// Drops `v` the way a thread that panics on its own account drops what it owns: during unwinding
+fn drop_while_unwinding<T>(v: T) {
+    let _ = rt::catch_unwind(move || {
+        let _v = v;
+        panic!("dv: the caller panics while it owns this value");
+    });
+}
+
 /// A handle on a panicked object cannot be dropped normally (Desync::drop panics by design). It is let go the way a
 /// panicking owner lets it go: dropped while unwinding, which frees the queue with whatever is still in it and leaves the
 /// value alone (keeping it forever instead costs several KB per generated case).
@@ -783,6 +795,15 @@ impl Drop for TStream {
             !st.closed && obj_alive && !(st.is_pipe && st.out_dropped) && !i.panic_case
         });
         self.w.hist(|| format!("stream s{} dropped", self.s));
+        if self.w.case.cfg.chained_streams {
+            // this stream owned the only sender of the next one: that one now ends
+            let nxt = self.s + 1;
+            let open = self.w.with(|i| i.streams.get(nxt).map(|st| st.used && !st.closed).unwrap_or(false));
+            if open {
+                self.w.with(|i| i.stats.chained_closes += 1);
+                stream_event(&self.w, nxt, None, true);
+            }
+        }
         if early {
             let (prop, obj) = self.w.with(|i| (if i.streams[self.s].is_pipe { "C12" } else { "C11" }, i.streams[self.s].pipe_obj));
             self.w.fail(prop, "input-stream-released-early", obj, None, format!("the pipe dropped its input stream s{} although the stream has not ended and the Desync is still alive: later items can never be processed", self.s));
@@ -1392,7 +1413,21 @@ impl CallerEnv {
                             }
                         });
                         let mut nx = out.next();
-                        let r = block_on(&mut nx);
+                        let r = if w.case.cfg.consumer_probe_polls {
+                            // now_or_never(), then wait with another waker
+                            let probe = waker(Arc::new(FlagWaker { flag: AtomicBool::new(false) }));
+                            let mut cx = Context::from_waker(&probe);
+                            match Pin::new(&mut nx).poll(&mut cx) {
+                                Poll::Ready(v) => v,
+                                Poll::Pending => {
+                                    w.with(|i| i.stats.consumer_probe_pending += 1);
+                                    w.hist(|| format!("pipe s{} probe poll: pending", s));
+                                    block_on(&mut nx)
+                                }
+                            }
+                        } else {
+                            block_on(&mut nx)
+                        };
                         w.hist(|| format!("pipe s{} output {:?}", s, r));
                         let mut bad = None;
                         w.with(|i| {
@@ -1435,7 +1470,11 @@ impl CallerEnv {
                         }
                     });
                     w.hist(|| format!("drop pipe output of s{}", s));
-                    drop(out);
+                    if w.case.cfg.unwinding_drops {
+                        drop_while_unwinding(out);
+                    } else {
+                        drop(out);
+                    }
                 }
             }
             Op::Attempt { o, kind, id } => {
@@ -1565,7 +1604,11 @@ fn caller_main(w: Arc<World>, gidx: usize, ci: usize, ops: Vec<Op>, hs: Handles,
     for s in 0..NSLOTS {
         if let Some((si, out)) = env.pipes[s].take() {
             w.with(|i| i.streams[si].out_dropped = true);
-            drop(out);
+            if w.case.cfg.unwinding_drops {
+                drop_while_unwinding(out);
+            } else {
+                drop(out);
+            }
         }
     }
     let panicked_objs: Vec<bool> = w.with(|i| i.objs.iter().map(|o| o.expect_panicked).collect());
@@ -1656,9 +1699,13 @@ fn root_main(w: Arc<World>) {
                         }
                     });
                 }
-                RootAct::SetPoolPublic { n } => {
+                RootAct::SetPoolPublic { n, atomic } => {
                     w.with(|i| i.cur_max = (*n as usize).max(i.cur_max));
-                    sched.set_max_threads(*n as usize);
+                    if *atomic {
+                        rt::atomic(|| sched.set_max_threads(*n as usize));
+                    } else {
+                        sched.set_max_threads(*n as usize);
+                    }
                     w.with(|i| i.cur_max = *n as usize);
                 }
                 RootAct::SpawnThread => {
@@ -1813,6 +1860,10 @@ fn root_main(w: Arc<World>) {
             if open {
                 stream_event(&w, s, None, true);
                 closed_any = true;
+                if case.cfg.chained_streams {
+                    // the next stream ends when the pipe lets go of this one: give that a chance first
+                    break;
+                }
             }
         }
         w.with(|i| i.root_stage = "final: wait for quiescence".to_string());
@@ -1882,6 +1933,8 @@ pub fn run_case(case: &Case, opts: &RunOpts) -> Outcome {
         phase: 0,
         final_stage: false,
         panic_case: case_has_panic(&case),
+        panic_clock: 0,
+        quiet_panic_variant: case_has_panic(&case) && case.phases.len() == 1,
         root_released: false,
     };
     let cfg = rt::Config {
